@@ -111,6 +111,18 @@ def generate(g, tier):
     for name in SPEC['flipper']['one_char_or_bare']:
         for ch in WIDE_NONASCII:
             cases.append(script_case(g, [(f'{name} {ch}', ('exact', f'{name} {ch}'))], False))
+    # the same scripts read from a FILE with any line-ending convention (a script saved on Windows): the lines are the same lines
+    for _ in range(count(tier, 60, 600)):
+        lines = [gen_line(g) for _ in range(g.r.randint(1, 12))]
+        c = script_case(g, lines, g.chance(0.4))
+        nl = g.r.choice(['\r\n', '\r\n', '\r', '\n'])
+        text = c['src']['text'].replace('\n', nl) + g.r.choice(['', nl, nl + nl])
+        cases.append(dict(op='compile_file', opts=c['opts'], file='proj/payload.txt', files={'proj/payload.txt': text}, meta=dict(c['meta'], family='script-file')))
+    # long scripts: every line passes through, however many there are
+    n = 30000 if tier == 'quick' else 120000
+    big = [gen_line(g) for _ in range(50)]
+    reps = n // 50
+    cases.append(dict(op='compile', timeout=300, src=dict(text='\n'.join(l for l, _ in big * reps)), meta=dict(family='script-long', exp=[e for _, e in big * reps if e[0] != 'rem'], nocorr=True)))
     if tier == 'thorough':
         # exhaustive: every (name, key) pair, every single printable ASCII char per modifier
         for m in SPEC['modifiers'].values():
